@@ -24,7 +24,7 @@ def spell_uniform(draw, sem, names, explicit=False):
         (other, list(mine) if isinstance(mine, (list, tuple)) else mine)
 
 
-def spell_partition(draw, assign, explicit=False):
+def spell_partition(draw, assign, explicit=False, form=None):
     """Selections (sts, mts) for an arbitrary {port: sem} assignment (requires side)."""
     sts = [p for p, s in assign.items() if s == 'STS']
     mts = [p for p, s in assign.items() if s == 'MTS']
@@ -35,7 +35,7 @@ def spell_partition(draw, assign, explicit=False):
         return spell_uniform(draw, 'STS', sts, explicit)
     if not sts:
         return spell_uniform(draw, 'MTS', mts, explicit)
-    form = 'both' if explicit else draw(st.sampled_from(['both', 'sts+rem', 'rem+mts']))
+    form = form or ('both' if explicit else draw(st.sampled_from(['both', 'sts+rem', 'rem+mts'])))
     if form == 'both':
         return list(draw(st.permutations(sts))), list(draw(st.permutations(mts)))
     if form == 'sts+rem':
@@ -44,7 +44,7 @@ def spell_partition(draw, assign, explicit=False):
 
 
 @st.composite
-def valid_spec(draw, sm, want_mc=None, want_mixed=None, explicit=False):
+def valid_spec(draw, sm, want_mc=None, want_mixed=None, explicit=False, req_form=None):
     table = gen_shell.port_table(sm)
     prov = [p['name'] for p in table if p['dir'] == 'provides']
     req = [p['name'] for p in table if p['dir'] == 'requires' and not p['injected']]
@@ -65,7 +65,7 @@ def valid_spec(draw, sm, want_mc=None, want_mixed=None, explicit=False):
         assign = {p: ('STS' if i % 2 == 0 else 'MTS') for i, p in enumerate(req)}
     else:
         assign = {p: draw(st.sampled_from(['STS', 'MTS'])) for p in req}
-    rsts, rmts = spell_partition(draw, assign, explicit)
+    rsts, rmts = spell_partition(draw, assign, explicit, req_form)
     decl_names = {e['name'][-1] for e in _scope_elems(sm)}
     base = draw(st.sampled_from(BASE_POOL))
     suffix = draw(st.sampled_from(SUFFIX_POOL))
@@ -117,10 +117,11 @@ def _scope_elems(sm):
 
 @st.composite
 def model_and_spec(draw, force=None, want_mc=None, want_mixed=None, collide=False,
-                   explicit=False):
+                   explicit=False, req_form=None):
     feats = list(force or [])
     if want_mc:
         feats.append('mc_ready')
     sm = draw(gen_shell.shell_model(force=feats, collide=collide))
-    vs = draw(valid_spec(sm, want_mc=want_mc, want_mixed=want_mixed, explicit=explicit))
+    vs = draw(valid_spec(sm, want_mc=want_mc, want_mixed=want_mixed, explicit=explicit,
+                         req_form=req_form))
     return {'sm': sm, 'spec': vs['spec'], 'semantics': vs['semantics']}
